@@ -286,3 +286,10 @@ func (b *Backend) Parties() []uint16 {
 	defer b.mu.Unlock()
 	return append([]uint16{}, b.parties...)
 }
+
+// SentCopy returns a copy of the records of what this backend emitted.
+func (b *Backend) SentCopy() []SentRec {
+	b.mu.Lock()
+	defer b.mu.Unlock()
+	return append([]SentRec{}, b.Sent...)
+}
